@@ -1,4 +1,5 @@
 import SupervisorModel.Model.Rpc
+import SupervisorModel.Lemmas.RpcText
 import SupervisorModel.Props.C16
 /-
   C12 — XML-RPC exposes only the public API; answers are results or documented faults.
@@ -13,6 +14,8 @@ import SupervisorModel.Props.C16
     multicall        multicall_sequential, multicall_recursion_refused, multicall_elements
     answers          never_500_partial, log_methods_answer (what IS proved of "never an HTTP 500")
     framing          immediate_content_length, deferred_content_length (F42, fixed)
+    request delivery request_body_fragmentation_invariant, request_body_independent_of_cuts, request_body_roundtrip,
+                     request_header_fragmentation_invariant (the answer cannot depend on how the socket cuts the request)
 -/
 set_option linter.unusedSimpArgs false
 namespace Sv.Props.C12
@@ -697,6 +700,84 @@ theorem deferred_content_length (t : List Char) :
 
 example : deferredResponse ['é'] = ⟨2, [0xC3, 0xA9]⟩ := by decide
 example : utf8Of ['a', 'é', '€', '😀'] = [0x61, 0xC3, 0xA9, 0xE2, 0x82, 0xAC, 0xF0, 0x9F, 0x98, 0x80] := by decide
+
+/-! ## the request on its way in: what `continue_request` is handed does not depend on how the socket cut the request
+
+  The property quantifies over calls, not over TCP segmentations.  The bytes of one POST reach the
+  channel in whatever pieces `recv` returns; every piece of the body goes through
+  `collector.collect_incoming_data` (generated `collKept`), and when Content-Length bytes are
+  there `collector.found_terminator` hands `continue_request` the generated `collHanded` of what
+  was kept.  An exception on this path escapes `handle_read`, asyncore closes the channel and the
+  caller gets NO answer — neither a value nor a fault.  So "every call … returns a value or a
+  documented fault" needs: the text handed over is the decoding of the WHOLE body, for every way of
+  cutting it.  (Seeded change C12-4 decoded each piece by itself: with it `collKept` is
+  `asString data`, `collHanded` is `joinText`, and the theorems below are false —
+  `decode_per_piece_not_invariant` is the reason.) -/
+
+theorem joinBytes_bytes (ps : List Bytes) : joinBytes (ps.map PyStr.bytes) = .ok (.bytes ps.flatten) := by
+  induction ps with
+  | nil => rfl
+  | cons p r ih => simp [joinBytes, ih]
+
+theorem collectPieces_eq (ps : List Bytes) (kept : List PyStr) :
+    collectPieces ps kept = .ok (kept ++ ps.map PyStr.bytes) := by
+  induction ps generalizing kept with
+  | nil => simp [collectPieces]
+  | cons p r ih => simp [collectPieces, collKept, ih]
+
+/-- **request_body_fragmentation_invariant.**  For every way `pieces` in which a request body can
+    arrive (any number of pieces, empty ones included, cuts anywhere — inside a multi-byte character
+    too): collecting never raises, and what `continue_request` is handed is `as_string` of the
+    whole body — the decoded text, or UnicodeDecodeError exactly when the body as a whole is not
+    UTF-8. -/
+theorem request_body_fragmentation_invariant (pieces : List Bytes) :
+    requestBody pieces = asString (.bytes pieces.flatten) := by
+  simp [requestBody, collectPieces_eq, collHanded, joinBytes_bytes, Except.bind]
+
+/-- two deliveries of the same bytes hand `continue_request` the same thing -/
+theorem request_body_independent_of_cuts (p q : List Bytes) (h : p.flatten = q.flatten) :
+    requestBody p = requestBody q := by
+  rw [request_body_fragmentation_invariant, request_body_fragmentation_invariant, h]
+
+/-- **request_body_roundtrip.**  Whatever text `t` a client marshals and encodes (`as_bytes`), and
+    however the network cuts it, `continue_request` is handed exactly `t`. -/
+theorem request_body_roundtrip (t : List Char) (pieces : List Bytes) (h : pieces.flatten = utf8Of t) :
+    requestBody pieces = .ok (.text t) := by
+  rw [request_body_fragmentation_invariant, h]
+  simp [asString, decodeUtf8_utf8Of]
+
+theorem bufferPieces_eq (ps : List Bytes) (b : Bytes) :
+    bufferPieces ps (.bytes b) = .ok (.bytes (b ++ ps.flatten)) := by
+  induction ps generalizing b with
+  | nil => simp [bufferPieces]
+  | cons p r ih => simp [bufferPieces, chanKept, pyConcat, Except.bind, ih]
+
+/-- the same for the request header (request line, Content-Length, … — `http_channel.collect_incoming_data`
+    accumulates, `deferring_http_channel.found_terminator` decodes once): the header text cracked
+    is `as_string` of the whole header however it was cut -/
+theorem request_header_fragmentation_invariant (pieces : List Bytes) :
+    requestHeader pieces = asString (.bytes pieces.flatten) := by
+  simp [requestHeader, bufferPieces_eq, chanHeader, Except.bind]
+
+theorem request_header_roundtrip (t : List Char) (pieces : List Bytes) (h : pieces.flatten = utf8Of t) :
+    requestHeader pieces = .ok (.text t) := by
+  rw [request_header_fragmentation_invariant, h]
+  simp [asString, decodeUtf8_utf8Of]
+
+/-- why the decode has to come after the join: decoding piece by piece is NOT invariant — the same
+    two bytes ("é") decode as one piece and raise when cut between them -/
+theorem decode_per_piece_not_invariant :
+    ∃ p q : List Bytes, p.flatten = q.flatten ∧
+      p.mapM (fun x => asString (.bytes x)) = .ok [.text ['é']] ∧
+      q.mapM (fun x => asString (.bytes x)) = .error "UnicodeDecodeError" :=
+  ⟨[[0xC3, 0xA9]], [[0xC3], [0xA9]], by decide, by decide, by decide⟩
+
+-- non-vacuity / the input of seeded change C12-4 in the small: "é" cut between its two bytes
+example : requestBody [[0x63, 0xC3], [0xA9, 0x21]] = .ok (.text ['c', 'é', '!']) := by decide
+example : requestBody [[0x63, 0xC3, 0xA9, 0x21]] = .ok (.text ['c', 'é', '!']) := by decide
+example : requestBody [[0xC3], [0x28]] = .error "UnicodeDecodeError" := by decide
+example : requestHeader [[0x58, 0xE2], [0x82], [0xAC]] = .ok (.text ['X', '€']) := by decide
+example : decodeUtf8 [0xED, 0xA0, 0x80] = none ∧ decodeUtf8 [0xC0, 0x80] = none ∧ decodeUtf8 [0xF4, 0x90, 0x80, 0x80] = none := by decide
 
 -- non-vacuity
 def demoTable : Table (Method Nat Nat) := fun ns =>
